@@ -12,7 +12,7 @@ ASSUMPTIONS = ["numpy on one row is the reference, incl. numpy's identity for an
                "values only (the statement does not fix the result dtype); means within 2 ulp of the result dtype",
                "float values are dyadic, so sums and products are exact whatever the summation order; no NaN"]
 REQUIRED_FEATURES = ["empty_row_first", "empty_row_last", "consecutive_empty_rows", "all_rows_empty", "zero_rows",
-                     "keepdims", "axis_none", "ufunc_reduce", "undefined_reference", "arg_reduction", "float_inf_pattern", "float_nan_pattern", "same_object_sequence"]
+                     "keepdims", "axis_none", "ufunc_reduce", "undefined_reference", "arg_reduction", "float_inf_pattern", "float_nan_pattern", "same_object_sequence", "integer_sum_beyond_64_bit"]
 BOUNDS = {"quick": "LV(4,3) x 9 dtypes x 2 patterns x {sum,prod,any,all,max,min,mean,argmax,argmin} x {method axis=-1, np.f axis=-1, "
                    "axis=1, keepdims, axis=None} + ufunc.reduce for add, multiply, logical_and/or/xor, bitwise_and/or/xor, maximum, minimum; value patterns cancel / +-inf / decimal / NaN; axis=1 spellings; same-object sequences of 13 reductions (contiguous and pending view); one 16-row array",
           "thorough": "LV(5,3) u LV(3,5), 3 patterns"}
@@ -64,6 +64,10 @@ def cases(shard, tier):
             for op in ("max", "min", "argmax", "argmin"):
                 for form in ("method", "func"):
                     yield [lens, dt, "dec", op, form]
+        if dt in ("int64", "uint64"):
+            # equal powers of two: each row's SUM leaves the 64-bit range although every element and the mean fit (and the float64 reference is exact)
+            for form in ("method", "func", "keepdims", "none"):
+                yield [lens, dt, "pow2", "mean", form]
         if dt in ("int64", "float64", "bool"):
             # one object asked again and again (contiguous, and as a selection nothing has read yet)
             yield [lens, dt, 0, "seq", "contig"]
@@ -104,12 +108,15 @@ def check(case, acc):
     elif k == "inf":
         acc.feature("float_inf_pattern")
         flat = np.array(([1.5, float("inf"), 0.25, -2.0, 4.0, float("-inf"), 0.5, 3.0] * (size // 8 + 1))[:size], dtype=dt)
+    elif k == "pow2":
+        acc.feature("integer_sum_beyond_64_bit")
+        flat = np.full(size, 2 ** 62 if dt == "int64" else 2 ** 63, dtype=dt)
     elif k == "nan":
         acc.feature("float_nan_pattern")
         flat = np.array(([1.5, float("nan"), 0.25, -2.0, 4.0, 0.5, float("nan"), 3.0] * (size // 8 + 1))[:size], dtype=dt)
     else:
         flat = dsl.pattern(dt, size, k)
-    if op in ("mean", "seq") and dt in ("int64", "uint64"):
+    if op in ("mean", "seq") and dt in ("int64", "uint64") and k != "pow2":
         # the mean is computed in float64: keep |values| < 2**53 so the reference itself is exact
         flat = (flat.astype(np.float64) % 1000).astype(flat.dtype)
     rows = dsl.split_rows(flat, lens)
